@@ -7,7 +7,7 @@ import (
 	"verif/plan"
 )
 
-func init() { runners["C08"] = runC08 }
+func init() { runners["C08"] = runC08; runners["C08P"] = runC08 }
 
 func buildScripts(e *Engine) error {
 	for i := range e.Plan.Scripts {
@@ -57,6 +57,13 @@ func runC08(e *Engine, res *EpisodeResult) {
 		}
 	}
 	res.Case = p.Shape + "|" + p.Notes["frags"]
+	// oracle 0: after set-up no two objects reach the same mutable memory
+	e.checkDisjoint("C08", "after set-up")
+	defer func() {
+		if e.Fatal == "" && !e.CapHit && !e.Stuck() {
+			e.checkDisjoint("C08", "after the episode")
+		}
+	}()
 	switch p.Shape {
 	case "clones":
 		c08Clones(e, be, res)
